@@ -174,7 +174,7 @@ Definition ns_K (f : nat) (start : mark) (ch : cp) (chunks : str) : M str :=
             h <- prefix len ;;
             let code := hex_value h in
             if (1114111 <? code)%N then
-              (if (2147483647 <? code)%N then crash OverflowError else crash ValueError)
+              err (Some start) 27                    (* code > 0x10FFFF: ScannerError (was chr() ValueError/OverflowError before the fix) *)
             else forward len ;;; fs_non_spaces f true start (chunks ++ [code])
         | None =>
             if mem e breaks then
